@@ -277,13 +277,29 @@ def gen_world(rnd, depth=None):
         if r.random() < 0.5:
             s = w.add_module("m1s1", "p1", "m1")
             m1["includes"].append("m1s1")
+    # a third module whose groupings get the same names; the submodules of m0 may bind the very prefix under which m0
+    # imports m1 to m2 instead (prefix clash between a module and its submodules), may name their module by a
+    # belongs-to prefix of their own ("s0") and may then re-use m0's own prefix "p0" for their import of m2
+    m2 = w.add_module("m2", "p2") if r.random() < 0.6 else None
+    if m2 is not None and r.random() < 0.3:
+        m0["imports"].append(("y2", "m2"))
+
+    def sub_imports(belongs_prefix):
+        if m2 is None or r.random() < 0.4:
+            return list(m0["imports"])
+        if belongs_prefix != "p0" and r.random() < 0.6:
+            return [("p0", "m2")] + [(p, mn) for p, mn in m0["imports"] if mn != "m2" and r.random() < 0.5]
+        clash = [(p, "m2") for p, mn in m0["imports"] if mn == "m1"] or [("x1", "m2")]
+        return clash
     if r.random() < 0.7:
-        s1 = w.add_module("m0s1", "p0", "m0")
-        s1["imports"] = list(m0["imports"])
+        bp = "p0" if r.random() < 0.6 else "s0"
+        s1 = w.add_module("m0s1", bp, "m0")
+        s1["imports"] = sub_imports(bp)
         m0["includes"].append("m0s1")
         if r.random() < 0.5:
-            s2 = w.add_module("m0s2", "p0", "m0")
-            s2["imports"] = list(m0["imports"])
+            bp2 = "p0" if r.random() < 0.6 else "s0"
+            s2 = w.add_module("m0s2", bp2, "m0")
+            s2["imports"] = sub_imports(bp2)
             (s1 if r.random() < 0.6 else m0)["includes"].append("m0s2")
     # nested scopes: a chain of containers in m0 (and sometimes in another module) that may host groupings
     frames = [w.topframe[m["name"]] for m in w.mods]
@@ -414,6 +430,16 @@ def gen_world(rnd, depth=None):
             if n is not None:
                 ab.append(n)
                 m["augments"].append(("/%s:%s" % (pfx, tgt[1]), ab))
+    # a part of m0 that imports m2 augments m2's tree under that prefix (in a submodule possibly m0's own prefix)
+    if "m2" in w.byname:
+        tgt2 = ("container", w.name("tgt"), None, [leaf(w)])
+        w.byname["m2"]["body"].append(tgt2)
+        for m in w.mods:
+            if (m["belongs"] or m["name"]) == "m0":
+                for p, mn in m["imports"]:
+                    if mn == "m2" and r.random() < 0.7:
+                        m["augments"].append(("/%s:%s" % (p, tgt2[1]), [leaf(w)]))
+                        break
     return w
 
 
@@ -975,6 +1001,178 @@ def c_compare(tree, expected, path, bad):
         c_compare(c, ch, path + "/" + nm, bad)
 
 
+# ------------------------------------------------------------------ family "scoped names" (implementation only)
+# Typedef and identity names inside a grouping resolve in the scope where the grouping is DEFINED: the innermost
+# enclosing typedef of that name (whether the reference is written plain or with the module's own prefix -- in a
+# submodule the belongs-to prefix), else the top level of the defining module / its submodules; a prefix of an import
+# statement of the DEFINING (sub)module denotes that import, even where the using module binds the prefix differently or
+# where a submodule re-uses its module's own prefix for an import.  Types are opaque in the core model, so this is an
+# oracle on the implementation alone; every typedef carries a unique marker (its units) and base type, the generator
+# knows the marker each reference has to resolve to, and every copy must show it.
+SN_NAMES = ("ta", "tb", "tc")
+SN_BASES = ("uint8", "int16", "uint16", "int32", "string", "boolean", "uint64", "int8", "uint32", "int64")
+
+
+class SNGen:
+    def __init__(self, rnd):
+        self.r = rnd
+        self.uid = 0
+
+    def n(self, stem):
+        self.uid += 1
+        return "%s%d" % (stem, self.uid)
+
+    def typedefs(self, p=0.45):
+        """typedef definitions of one scope: name -> (base, marker)"""
+        out = {}
+        for nm in SN_NAMES:
+            if self.r.random() < p:
+                out[nm] = (self.r.choice(SN_BASES), self.n("mk"))
+        return out
+
+    def leaves(self, chain, env):
+        """1..3 leaves referring to typedefs / identities; chain: typedef dicts innermost first; env: the defining file"""
+        r = self.r
+        out = []
+        for _ in range(r.randint(1, 3)):
+            x = r.random()
+            nm = r.choice(SN_NAMES)
+            if x < 0.65:
+                ref = nm if r.random() < 0.5 else env["own"] + ":" + nm
+                exp = None
+                for sc in chain:
+                    if nm in sc:
+                        exp = sc[nm]
+                        break
+                if exp is None:
+                    exp = env["top"][nm]
+                out.append(("leaf", self.n("l"), "type %s;" % ref, ("type", exp[0], exp[1])))
+            elif x < 0.8:
+                out.append(("leaf", self.n("l"), "type %s:%s;" % (env["ip"], nm), ("type", "uint32", "other-" + nm)))
+            elif x < 0.9:
+                out.append(("leaf", self.n("l"), "type identityref { base %s:kind; }" % env["own"], ("id", "main:kind")))
+            else:
+                out.append(("leaf", self.n("l"), "type identityref { base %s:kind; }" % env["ip"], ("id", "other:kind")))
+        return out
+
+    def scope(self, depth, chain, env):
+        """children of a scope: leaves, nested containers/lists with their own typedefs"""
+        r = self.r
+        kids = self.leaves(chain, env)
+        if depth > 0:
+            for _ in range(r.randint(0, 2)):
+                td = self.typedefs(0.35)
+                kids.append((r.choice(["container", "list"]), self.n("c"), td, self.scope(depth - 1, [td] + chain, env)))
+        return kids
+
+
+def sn_render(n, ind):
+    k = n[0]
+    if k == "leaf":
+        return "%sleaf %s { %s }\n" % (ind, n[1], n[2])
+    if k == "uses":
+        return "%suses %s;\n" % (ind, n[1])
+    _, name, td, kids = n
+    body = "".join('%s  typedef %s { type %s; units "%s"; }\n' % (ind, t, b, mk) for t, (b, mk) in sorted(td.items()))
+    body += "".join(sn_render(c, ind + "  ") for c in kids)
+    return "%s%s %s {\n%s%s}\n" % (ind, k, name, body, ind)
+
+
+def sn_expand(kids):
+    out = []
+    for n in kids:
+        if n[0] == "uses":
+            out += sn_expand(n[2][3])
+        elif n[0] == "leaf":
+            out.append((n[1], n[3], []))
+        elif n[0] == "grouping":
+            continue
+        else:
+            out.append((n[1], None, sn_expand(n[3])))
+    return out
+
+
+def gen_scoped_names(rnd):
+    g = SNGen(rnd)
+    r = rnd
+    has_sub = r.random() < 0.7
+    bp = r.choice(["m", "self"]) if has_sub else "m"
+    sub_ip = "m" if (bp == "self" and r.random() < 0.7) else "o"
+    main_names = [n for n in SN_NAMES if not has_sub or r.random() < 0.6]
+    sub_names = [n for n in SN_NAMES if n not in main_names]
+    top = {}
+    for n in main_names:
+        top[n] = (r.choice(SN_BASES), "main-" + n)
+    for n in sub_names:
+        top[n] = (r.choice(SN_BASES), "sub-" + n)
+    envs = {"main": dict(own="m", ip="o", top=top), "sub": dict(own=bp, ip=sub_ip, top=top)}
+    groupings = {"main": [], "sub": []}
+    for where in ["main"] + (["sub"] if has_sub else []):
+        env = envs[where]
+        for _ in range(r.randint(1, 2)):
+            td = g.typedefs(0.6)
+            kids = g.scope(r.randint(1, 3), [td], env)
+            if r.random() < 0.4:
+                # a grouping nested in the grouping, used inside it: its references see the outer grouping's typedefs
+                itd = g.typedefs(0.3)
+                ig = ("grouping", g.n("ng"), itd, g.scope(1, [itd, td], env))
+                kids.append(ig)
+                kids.append(("container", g.n("u"), {}, [("uses", ig[1], ig)]))
+            groupings[where].append(("grouping", g.n("g"), td, kids))
+    main_body, sub_body, user_body = [], [], []
+    for where in ("main", "sub"):
+        for gr in groupings[where]:
+            sites = ["main", "user"] + (["sub"] if where == "sub" else []) + ["main"]
+            for site in r.sample(sites, r.randint(2, min(3, len(sites)))):
+                # decoy typedefs in the USING scope must not capture anything
+                h = (r.choice(["container", "list"]), g.n("h"), g.typedefs(0.5), [("uses", ("mn:" if site == "user" else "") + gr[1], gr)])
+                {"main": main_body, "sub": sub_body, "user": user_body}[site].append(h)
+    def tds(names, pfx):
+        return "".join('  typedef %s { type %s; units "%s"; }\n' % (n, top[n][0], top[n][1]) for n in names)
+    main = ('module main {\n  namespace "urn:main";\n  prefix m;\n  import other { prefix o; }\n%s%s'
+            '  identity kind;\n  identity main-kind { base kind; }\n%s%s}\n'
+            % ("  include main-sub;\n" if has_sub else "", tds(main_names, "main"),
+               "".join(sn_render(x, "  ") for x in groupings["main"]), "".join(sn_render(x, "  ") for x in main_body)))
+    other = ('module other {\n  namespace "urn:other";\n  prefix o;\n%s  identity kind;\n  identity other-kind { base kind; }\n}\n'
+             % "".join('  typedef %s { type uint32; units "other-%s"; }\n' % (n, n) for n in SN_NAMES))
+    # the using module binds the prefixes m and o to something else: they must not leak into the copies
+    user = ('module user {\n  namespace "urn:user";\n  prefix u;\n  import main { prefix mn; }\n  import decoy { prefix o; }\n'
+            '  import decoy2 { prefix m; }\n%s%s}\n'
+            % ("".join('  typedef %s { type binary; units "user-%s"; }\n' % (n, n) for n in SN_NAMES),
+               "".join(sn_render(x, "  ") for x in user_body)))
+    decoy = "".join('module %s {\n  namespace "urn:%s";\n  prefix d;\n%s  identity kind;\n}\n' % (nm, nm,
+                    "".join('  typedef %s { type binary; units "%s-%s"; }\n' % (n, nm, n) for n in SN_NAMES)) for nm in ["decoy"])
+    decoy2 = decoy.replace("decoy", "decoy2")
+    texts = [("main.yang", main), ("other.yang", other), ("user.yang", user), ("decoy.yang", decoy), ("decoy2.yang", decoy2)]
+    if has_sub:
+        sub = ('submodule main-sub {\n  belongs-to main { prefix %s; }\n  import other { prefix %s; }\n%s%s%s  leaf subleaf { type string; }\n}\n'
+               % (bp, sub_ip, tds(sub_names, "sub"), "".join(sn_render(x, "  ") for x in groupings["sub"]),
+                  "".join(sn_render(x, "  ") for x in sub_body)))
+        texts.append(("main-sub.yang", sub))
+    r.shuffle(texts)
+    expected = {"main": sn_expand(main_body) + sn_expand(sub_body), "user": sn_expand(user_body)}
+    return texts, expected, dict(sub=has_sub, belongs_prefix=bp, sub_import_prefix=sub_ip)
+
+
+def sn_compare(tree, expected, path, bad, cnt):
+    kids = {c["name"]: c for c in (tree.get("children") or [])}
+    for (nm, exp, ch) in expected:
+        c = kids.get(nm)
+        if c is None:
+            bad.append("%s/%s: missing" % (path, nm))
+            continue
+        if exp is not None:
+            t = c.get("type") or {}
+            cnt[0] += 1
+            if exp[0] == "type":
+                got = ("type", t.get("kind"), t.get("units"))
+            else:
+                got = ("id", t.get("idbase"))
+            if got != exp:
+                bad.append("%s/%s: resolved to %s, want %s" % (path, nm, got, exp))
+        sn_compare(c, ch, path + "/" + nm, bad, cnt)
+
+
 # ------------------------------------------------------------------ run
 def run_go(lines):
     tmp = tempfile.mkdtemp(prefix="c06cwd")
@@ -1258,11 +1456,41 @@ def run(res, tier, seed, proof):
             violation("tree invariant violated after a clean Process: %s" % j["runs"][-1]["treeviol"][:3],
                       dict(rep, treeviol=j["runs"][-1]["treeviol"]))
 
-    evaluations = len(lines_go) + len(ind_lines) + len(neg) + len(pos) + len(reg) + n_con + stats.get("spec_inline_compared", 0)
+    # ---- family "scoped names": typedef / identity references inside groupings (implementation only)
+    n_sn = 150 if tier == "quick" else 3000
+    sn = [gen_scoped_names(random.Random(rnd.getrandbits(64))) for _ in range(n_sn)]
+    sn_lines = ["process - %s %d %s" % (",".join(["L%d" % i for i in range(len(t))] + ["P"]), len(t),
+                                         " ".join("%s %s" % (sg.hx(fn), sg.hx(tx)) for fn, tx in t)) for t, _, _ in sn]
+    sn_go = run_go(sn_lines)
+    stats.update(scoped_name_cases=n_sn, scoped_name_refs_compared=0, scoped_name_shapes={})
+    for (texts, expected, shape), line, g in zip(sn, sn_lines, sn_go):
+        o, st, j = go_obs(g)
+        rep = dict(kind="constraints", go_case=line, text="\n".join(t for _, t in sorted(texts)), shape=shape)
+        key = "%s/%s/%s" % (shape["sub"], shape["belongs_prefix"], shape["sub_import_prefix"])
+        stats["scoped_name_shapes"][key] = stats["scoped_name_shapes"].get(key, 0) + 1
+        if st != "ok":
+            violation("scoped names family: the implementation did not process the set cleanly: %s"
+                      % (j["runs"][-1]["errors"][:2] if j else g[:300]), rep)
+            continue
+        bad, cnt = [], [0]
+        for mn, exp in expected.items():
+            sn_compare(tree_of(j, mn), exp, "/" + mn, bad, cnt)
+        stats["scoped_name_refs_compared"] += cnt[0]
+        if bad:
+            violation("a name inside a grouping did not resolve in the grouping's defining scope: %s" % "; ".join(bad[:3]),
+                      dict(rep, mismatches=bad[:20]))
+
+    evaluations = len(lines_go) + len(ind_lines) + len(neg) + len(pos) + len(reg) + n_con + n_sn + stats.get("spec_inline_compared", 0)
     cov = dict(
         evaluations=evaluations,
         distinct_nontrivial=stats["ok"] + stats["independence_single"] + stats["independence_double"],
-        rule="family `constraints` (implementation only): 1..3 groupings whose nodes (leaf, leaf-list, anyxml, container, list, "
+        rule="family `scoped names` (implementation only): typedef / identity references inside groupings of a module and of its "
+             "submodule (belongs-to prefix equal to or different from the module's prefix; the submodule's import prefix may be "
+             "the module's own prefix), typedefs re-defined at every nesting level (grouping, nested grouping, container, list), "
+             "references written plain, with the own prefix and with an import prefix, decoy typedefs in every using scope and "
+             "using module, 2..3 uses per grouping from module, submodule and an importing module; every copy must show the "
+             "marker (units, base type / identity base) of the definition the generator chose by construction.  "
+             "Family `constraints` (implementation only): 1..3 groupings whose nodes (leaf, leaf-list, anyxml, container, list, "
              "choice, case; nesting <= 3) carry 0..5 if-feature/must/when/status/reference statements, groupings using "
              "groupings, 2..3 uses per grouping from m0 and an importing m1, each uses with 0..5 if-feature/when/status/"
              "reference substatements of its own; every copy's Extra lists must equal node ++ grouping ++ uses (faithful) and "
@@ -1285,6 +1513,9 @@ def run(res, tier, seed, proof):
     )
     assumptions = [
         "types are builtin type names (typedef scoping inside groupings is C09); identities are not generated (C11)",
+        "typedef and identity resolution have no counterpart in the core model (types are opaque names there; C09/C11 own "
+        "the resolution itself): the family `scoped names` checks on the implementation alone that references inside groupings "
+        "resolve in the defining scope and identically in every copy",
         "constraints (if-feature, must, when, status, reference) have no counterpart in the core model: the family "
         "`constraints` is an oracle on the implementation alone (expected lists known to the generator by construction: the "
         "node's own statements, then the grouping statement's, then those of the uses statement that made the copy)",
